@@ -378,11 +378,18 @@ func TestVerifC10Stack(t *testing.T) {
 						}
 					}
 					rec.ecsAddr, rec.ecsASN = netip.AddrFrom4([4]byte{45, 45, byte(rng.Intn(250)), 0}), decoy
+					bits := uint8(24)
+					if a := c.Addr.Unmap(); a.Is4() && rng.Intn(2) == 0 {
+						// a short prefix that COVERS the client's own address (its /8, or everything): the place of
+						// the subnet's base address is still not the place of the client
+						bits = []uint8{8, 8, 0}[rng.Intn(3)]
+						rec.ecsAddr = netip.PrefixFrom(a, int(bits)).Masked().Addr()
+					}
 					req.SetEdns0(1232, false)
 					o := req.IsEdns0()
-					o.Option = append(o.Option, &dns.EDNS0_SUBNET{Code: dns.EDNS0SUBNET, Family: 1, SourceNetmask: 24,
+					o.Option = append(o.Option, &dns.EDNS0_SUBNET{Code: dns.EDNS0SUBNET, Family: 1, SourceNetmask: bits,
 						Address: rec.ecsAddr.AsSlice()})
-					via += fmt.Sprintf("/ecs=%s/24(asn %d)", rec.ecsAddr, decoy)
+					via += fmt.Sprintf("/ecs=%s/%d(asn %d)", rec.ecsAddr, bits, decoy)
 				}
 				ctx, cancel := context.WithTimeout(context.Background(), c10ReqTimeout)
 				ctx = dnsserver.ContextWithServerInfo(ctx, &dnsserver.ServerInfo{Name: e.name, Addr: e.laddr.String(),
